@@ -13,7 +13,7 @@ git diff > /tmp/seed-$ID.diff
 [ -s /tmp/seed-$ID.diff ] || { log "no change in worktree"; exit 2; }
 DEMOS=$(git status --porcelain | grep '^??' | awk '{print $2}' | grep '_test.go$')
 log "change: $(git diff --stat | tail -1)"; log "demo files: $DEMOS"
-run_demo() { (cd $WT/$MOD && timeout 600 go test -vet=off -count=1 -run "$PAT" ./${DEMODIR#$MOD/}/ 2>&1 | tail -3); }
+run_demo() { (cd $WT/$MOD && timeout 900 go test $DEMOFLAGS -vet=off -count=1 -run "$PAT" ./${DEMODIR#$MOD/}/ 2>&1 | tail -3); }
 log "--- demo WITH change (expect FAIL)"; R1=$(run_demo); log "$R1"
 mkdir -p /tmp/seed-demo-$ID; for d in $DEMOS; do mv $WT/$d /tmp/seed-demo-$ID/; done
 log "--- existing tests WITH change (expect ok)"
